@@ -423,7 +423,19 @@ fn fails_same(prop: &str, tier: Tier, n: u64, data: &[u64], class: &str, shape: 
 pub fn shrink(prop: &str, tier: Tier, n: u64, tape: Vec<u64>, class: &str, shape: &str, budget_s: f64) -> (Vec<u64>, WorldReport, u64) {
     let start = Instant::now();
     let mut best = tape;
-    let mut best_rep = fails_same(prop, tier, n, &best, class, shape).expect("violation must replay from its own tape");
+    let mut best_rep = match fails_same(prop, tier, n, &best, class, shape) {
+        Some(r) => r,
+        None => {
+            // a difference that does not come back from its own tape is not a replayable violation: the
+            // code under test behaves differently from run to run for a reason no seam of the simulator
+            // controls (threads scheduled by the kernel, real time read around the interposed clock, ...).
+            // That is itself worth a loud stop - but it is a harness error (exit 2), not a verdict.
+            eprintln!(
+                "HARNESS ERROR: {prop} {class} [{shape}] in world {n} does not reproduce from its own tape: the code under test is nondeterministic beyond the simulator's seams (hash entropy, clock, file-system calls, directory order, store, schedule); not reported as a violation because it cannot be replayed"
+            );
+            std::process::exit(2);
+        }
+    };
     let mut tries = 0u64;
     let over = |s: &Instant| s.elapsed().as_secs_f64() > budget_s;
     // trailing zeros are free
